@@ -9,10 +9,15 @@
 static char h_thunks[H_NTHUNKS][16];
 static void *h_thunk_target[H_NTHUNKS];
 static int h_thunk_n;
-static int h_thunk_index (void *t) {
-  for (int i = 0; i < H_NTHUNKS; i++)
-    if (t == (void *) h_thunks[i]) return i < h_thunk_n ? i : -1;
-  return -1;
+static int h_thunk_index (void *t) { /* no pointer-comparison loop: under `cbmc --paths` every undecided comparison forks a path */
+#if H_CBMC
+  if (!__CPROVER_same_object (t, (void *) h_thunks)) return -1;
+  size_t off = __CPROVER_POINTER_OFFSET (t);
+#else
+  if ((char *) t < (char *) h_thunks || (char *) t >= (char *) h_thunks + sizeof (h_thunks)) return -1;
+  size_t off = (size_t) ((char *) t - (char *) h_thunks);
+#endif
+  return off % 16 == 0 && off / 16 < (size_t) h_thunk_n ? (int) (off / 16) : -1;
 }
 static void *h_get_thunk (struct MIR_context *ctx) {
   (void) ctx;
